@@ -127,6 +127,7 @@ fn main() {
         "c19bin" => binproc::run_c19(&mut ctx),
         "c14est" => c10::run_establish(&mut ctx),
         "c10socks" => c10::run_socks(&mut ctx),
+        "c10real" => c10::run_real(&mut ctx),
         "c13wizard" => binproc::run_c13_wizard(&mut ctx),
         "c14live" => c14live::run(&mut ctx),
         "c11" => c11::run(&mut ctx),
